@@ -1182,6 +1182,7 @@ func (r *Raft) electionTicker() {
 		// to avoid kicking off an election at the same time as other nodes.
 		timeout := random.RandomTimeout(r.options.electionTimeout, 2*r.options.electionTimeout)
 		time.Sleep(timeout * time.Millisecond)
+		verifTimerGate(r)
 
 		r.mu.Lock()
 		if r.state == Shutdown {
